@@ -88,7 +88,9 @@ struct World {
 
 impl World {
     fn bytes(&self, b: &[u8; 32]) -> BytesN<32> { BytesN::from_array(&self.e, b) }
-    fn salt(&self, s: u8) -> BytesN<32> { let mut x = [0u8; 32]; x[31] = s; self.bytes(&x) }
+    /// salts: code s = the 32-byte big-endian number s, except the codes 251..=255 which stand for special 32-byte values
+    /// (injective, so the model's salt numbers keep identifying the byte strings)
+    fn salt(&self, s: u8) -> BytesN<32> { self.bytes(&salt_bytes(s)) }
     fn id_ix(&mut self, b: [u8; 32]) -> u64 {
         if let Some(p) = self.ids.iter().position(|x| *x == b) { return p as u64; }
         self.ids.push(b); (self.ids.len() - 1) as u64
@@ -244,6 +246,20 @@ impl World {
     fn set_now(&mut self, now: u32) { self.now = now; self.e.ledger().with_mut(|l| l.sequence_number = now); }
 }
 
+fn salt_bytes(s: u8) -> [u8; 32] {
+    let mut x = [0u8; 32];
+    match s {
+        255 => { x = [0xFFu8; 32]; }
+        254 => { x[0] = 0x80; }
+        253 => { x = [0xFFu8; 32]; x[0] = 0x7F; }
+        252 => { x[30] = 1; }
+        251 => { x[0] = 1; }
+        _ => { x[31] = s; }
+    }
+    x
+}
+fn salt_name(s: u8) -> &'static str { match s { 255 => "ff", 254 => "high-bit", 253 => "max-positive", 252 => "256", 251 => "high-byte", 0 => "zero", _ => "small" } }
+
 fn st_name(s: OperationState) -> &'static str {
     match s { OperationState::Unset => "Unset", OperationState::Waiting => "Waiting", OperationState::Ready => "Ready", OperationState::Done => "Done" }
 }
@@ -260,6 +276,8 @@ struct Tr {
     items: std::vec::Vec<String>,
     nexec: usize,
     admin_self: bool,
+    /// tag of the next direct __check_auth call (part of its label)
+    ca_tag: &'static str,
 }
 
 #[derive(Clone, Debug)]
@@ -327,7 +345,7 @@ impl Tr {
         let lst = |xs: &[usize]| list(&xs.iter().map(|x| n(*x as u64)).collect::<std::vec::Vec<_>>());
         let cfg_text = format!("(Build_cfg {} (Build_hostcfg {} {}) {}) {} {} {} {} {}", n(SELF as u64), HOSTCFG[hc].0, HOSTCFG[hc].2, stellar_access::access_control::MAX_ROLES,
             now0, min_delay, lst(proposers), lst(executors), opt(admin.map(|a| n(a as u64))));
-        let mut tr = Tr { w, ops, op_ids, nids, tags: std::vec![1, 2, 3], cfg_text, tbl, obs0: String::new(), items: std::vec![], nexec: executors.len(), admin_self: admin.is_none() };
+        let mut tr = Tr { w, ops, op_ids, nids, tags: std::vec![1, 2, 3], cfg_text, tbl, obs0: String::new(), items: std::vec![], nexec: executors.len(), admin_self: admin.is_none(), ca_tag: "" };
         tr.obs0 = tr.observe();
         tr
     }
@@ -477,7 +495,7 @@ impl Tr {
                 let cs: std::vec::Vec<String> = cxs.iter().map(|c| self.w.cx_coq(c)).collect();
                 let xs: std::vec::Vec<String> = xa.iter().map(|(x, o)| { let oc = self.w.op_coq(o); pair(&n(*x as u64), &oc) }).collect();
                 let shape = if metas.len() < cxs.len() { "short" } else if metas.len() > cxs.len() { "long" } else { "eq" };
-                (format!("CheckAuth {} {} {}", list(&ms), list(&cs), list(&xs)), format!("check_auth_{}@{}", shape, sit), match r { Ok(()) => Some(None), Err(_) => None })
+                (format!("CheckAuth {} {} {}", list(&ms), list(&cs), list(&xs)), { let t = std::mem::take(&mut self.ca_tag); if t.is_empty() { format!("check_auth_{}@{}", shape, sit) } else { format!("check_auth_{}:{}@{}", shape, t, sit) } }, match r { Ok(()) => Some(None), Err(_) => None })
             }
             C::Advance(k) => {
                 let nn = self.w.now.checked_add(*k).filter(|v| *v <= CAP).expect("generator keeps the ledger <= CAP");
@@ -791,6 +809,214 @@ fn directed(out: &mut Out, rng: &mut Rng, nexec: usize, state: u8, shape: u64, w
     tr.call(out, &C::CheckAuth(std::vec![], std::vec![Cx::C(SELF, o.f, o.av.clone())], std::vec![]));
     tr.call(out, &C::Admin(o.f, o.av.clone(), good_self(&o, x)));
     tr.finish(out, &format!("directed/{}-state{}-exec{}-{}", fn_name(o.f), state, nexec, tag));
+}
+
+// ---------- K2: numeric arguments at the u32 extremes, special 32-byte values ----------
+const M32: u32 = u32::MAX;
+const H31: u32 = 1u32 << 31;
+fn leak(s: String) -> &'static str { Box::leak(s.into_boxed_str()) }
+
+/// try to get operation k through: admin entry point end to end with the consuming authorisation (self-targeting),
+/// execute_op (external target)
+fn probe(tr: &mut Tr, out: &mut Out, k: usize, x: Option<usize>, tag: &'static str) -> bool {
+    let o = tr.ops[k].clone();
+    if o.target == SELF && (10..=17).contains(&o.f) {
+        let mut au = good_self(&o, x); au.tag = tag;
+        tr.call(out, &C::Admin(o.f, o.av.clone(), au))
+    } else {
+        let mut au = Authz::default(); if let Some(x) = x { au.plain.push(x); } au.tag = tag;
+        tr.call(out, &C::Execute(k, x, au))
+    }
+}
+fn probe_direct(tr: &mut Tr, out: &mut Out, k: usize, x: Option<usize>, tag: &'static str) -> bool {
+    let o = tr.ops[k].clone();
+    let xa: std::vec::Vec<(usize, OpD)> = x.map(|x| std::vec![(x, o.clone())]).unwrap_or_default();
+    tr.ca_tag = tag;
+    tr.call(out, &C::CheckAuth(std::vec![MetaD { pred: o.pred, salt: o.salt, exec: x }], std::vec![Cx::C(o.target, o.f, o.av.clone())], xa))
+}
+
+/// Directed family: schedule_op with delays at the u32 extremes (u32::MAX, u32::MAX - 1, 2^31 +- 1, ledger + delay =
+/// u32::MAX - 1 / u32::MAX / 2^32 / 2^32 + 1 / 2^32 + 2, = CAP - 1 / CAP / CAP + 1, the minimum delay +- 1, 0) for every kind
+/// of operation, each one tried in the scheduling ledger, one ledger later, at ready - 1 / ready / ready + 1 of every
+/// operation whose ready ledger can be reached, and at the highest ledger the host supports.
+fn extreme_delays(out: &mut Out, rng: &mut Rng, desc: &str, now0: u32, nexec: usize, hc: usize) {
+    let execs: std::vec::Vec<usize> = [X1][..nexec].to_vec();
+    let min = 2u32;
+    let mut tr = Tr::new_h(rng, now0, min, &[P1, P2], &execs, None, 1, true, hc);
+    let x = if nexec == 0 { None } else { Some(X1) };
+    let z = [0u8; 32];
+    let to_max = M32 - now0;
+    let mut cat: std::vec::Vec<(&'static str, u32, bool)> = std::vec![
+        ("max", M32, false), ("max-1", M32 - 1, false),
+        ("sum=max-1", to_max - 1, false), ("sum=max", to_max, false), ("sum=max+1", to_max.saturating_add(1), false), ("sum=max+2", to_max.saturating_add(2), false), ("sum=max+3", to_max.saturating_add(3), false),
+        ("sum=max+ledger", to_max.saturating_add(now0), false),
+        ("half-1", H31 - 1, false), ("half", H31, true), ("half+1", H31 + 1, false),
+        ("sum=cap-1", CAP - 1 - now0, true), ("sum=cap", CAP - now0, false), ("sum=cap+1", CAP + 1 - now0, false),
+        ("min", min, false), ("min+1", min + 1, true), ("min-1", min - 1, false), ("zero", 0, false)];
+    // one operation per delay; the kinds rotate so that every admin entry point (and execute_op) meets every delay class
+    let rot = now0 as usize % 7 + nexec;
+    let mut ks: std::vec::Vec<usize> = std::vec![];
+    for (i, _) in cat.iter().enumerate() {
+        let (t, f, av) = match (i + rot) % 7 {
+            0 => (SELF, 10u8, Av::U32(30 + i as u32)), 1 => (SELF, 11, Av::Role(OUT, 4, SELF)), 2 => (TGT, 0, Av::U32(1)),
+            3 => (SELF, 13, Av::RoleAdmin(4, 5)), 4 => (SELF, 12, Av::Role(P2, 3, SELF)), 5 => (SELF, 14, Av::Transfer(ADM, now0 + 3000)),
+            _ => (SELF, 11, Av::Role(P2, 5, SELF)),
+        };
+        ks.push(tr.add_op(OpD { target: t, f, av, pred: z, salt: 100 + i as u8 }));
+    }
+    // the first two always: update_delay and grant_role with delay u32::MAX / u32::MAX - 1 whatever the rotation
+    cat.push(("max", M32, false)); ks.push(tr.add_op(OpD { target: SELF, f: 10, av: Av::U32(0), pred: z, salt: 130 }));
+    cat.push(("max-1", M32 - 1, false)); ks.push(tr.add_op(OpD { target: SELF, f: 11, av: Av::Role(OUT, 1, SELF), pred: z, salt: 131 }));
+    cat.push(("sum=max+1", to_max.saturating_add(1), false)); ks.push(tr.add_op(OpD { target: SELF, f: 12, av: Av::Role(P2, 1, SELF), pred: z, salt: 132 }));
+    cat.push(("sum=max+3", to_max.saturating_add(3), false)); ks.push(tr.add_op(OpD { target: SELF, f: 14, av: Av::Transfer(OUT, now0 + 3000), pred: z, salt: 133 }));
+    cat.push(("max", M32, false)); ks.push(tr.add_op(OpD { target: TGT, f: 0, av: Av::U32(2), pred: z, salt: 134 }));
+    let n = cat.len();
+    let mut sched = std::vec![false; n]; let mut done = std::vec![false; n];
+    let ready: std::vec::Vec<u32> = cat.iter().map(|c| now0.saturating_add(c.1)).collect();
+    for i in 0..n {
+        let mut a = Authz::default(); a.plain.push(P1); a.tag = leak(format!("delay-{}", cat[i].0));
+        sched[i] = tr.call(out, &C::Schedule(ks[i], cat[i].1, P1, a));
+        if sched[i] {
+            // in the very ledger it was scheduled in
+            let ok = probe(&mut tr, out, ks[i], x, leak(format!("delay-{}@same-ledger", cat[i].0)));
+            if ok { done[i] = true; }
+            if i % 3 == 0 && !ok { if probe_direct(&mut tr, out, ks[i], x, leak(format!("delay-{}@same-ledger", cat[i].0))) { done[i] = true; } }
+        }
+    }
+    let mut visits: std::vec::Vec<u32> = std::vec![now0 + 1, CAP];
+    for i in 0..n { if sched[i] { for r in [ready[i].wrapping_sub(1), ready[i], ready[i].wrapping_add(1)] { if r > now0 && r <= CAP { visits.push(r); } } } }
+    visits.sort(); visits.dedup();
+    for &l in visits.iter() {
+        let gap = l - tr.w.now;
+        if gap > 0 { tr.call(out, &C::Advance(gap)); }
+        for i in 0..n {
+            if !sched[i] || done[i] { continue; }
+            let rel = l as i64 - ready[i] as i64;
+            let tag = if rel.abs() <= 1 { if cat[i].2 && rel == 0 { continue; } leak(format!("delay-{}@ready{:+}", cat[i].0, rel)) }
+                      else if l == now0 + 1 { leak(format!("delay-{}@next-ledger", cat[i].0)) }
+                      else if l == CAP { leak(format!("delay-{}@top-ledger", cat[i].0)) } else { continue };
+            let direct = (i + l as usize) % 4 == 0;
+            let ok = if direct { probe_direct(&mut tr, out, ks[i], x, tag) } else { probe(&mut tr, out, ks[i], x, tag) };
+            if ok { done[i] = true; }
+            // a failed consumption of an operation that is due stays possible later; nothing else to do
+        }
+    }
+    tr.finish(out, desc);
+}
+
+/// Directed family: update_delay with 0 / 1 / 2^31 / u32::MAX - 1 / u32::MAX (through the timelock, or directly by an external
+/// admin); after each the new minimum is probed by schedule_op one below / at it, and the operation scheduled AT the minimum
+/// is tried in the same ledger (legal only for minimum 0), one ledger later, at its ready ledger.
+fn extreme_min_delay(out: &mut Out, rng: &mut Rng, desc: &str, nexec: usize, hc: usize, admin: Option<usize>) {
+    let execs: std::vec::Vec<usize> = [X1][..nexec].to_vec();
+    let now0 = 2000u32;
+    let mut tr = Tr::new_h(rng, now0, 2, &[P1], &execs, admin, 1, true, hc);
+    let x = if nexec == 0 { None } else { Some(X1) };
+    let z = [0u8; 32];
+    let vals: [(&'static str, u32); 6] = [("0", 0), ("1", 1), ("half", H31), ("half+1", H31 + 1), ("max-1", M32 - 1), ("max", M32)];
+    let ups: std::vec::Vec<OpD> = vals.iter().enumerate().map(|(i, v)| OpD { target: SELF, f: 10, av: Av::U32(v.1), pred: z, salt: 120 + i as u8 }).collect();
+    let kups: std::vec::Vec<usize> = ups.iter().map(|o| tr.add_op(o.clone())).collect();
+    // probes: external and self-targeting operations alternate
+    let kpr: std::vec::Vec<usize> = (0..vals.len()).map(|j| tr.add_op(if j % 2 == 0 || admin.is_some() { OpD { target: TGT, f: 0, av: Av::U32(1 + (j as u32 % 2)), pred: z, salt: 140 + j as u8 } }
+                                                                       else { OpD { target: SELF, f: 11, av: Av::Role(OUT, 4, SELF), pred: z, salt: 140 + j as u8 } })).collect();
+    let pt = |p: usize, t: &'static str| { let mut a = Authz::default(); a.plain.push(p); a.tag = t; a };
+    if admin.is_none() {
+        for &k in kups.iter() { tr.call(out, &C::Schedule(k, 2, P1, pt(P1, ""))); }
+        tr.call(out, &C::Advance(2));
+    }
+    for (i, (name, v)) in vals.iter().enumerate() {
+        let tag = leak(format!("new-delay-{}", name));
+        match admin {
+            None => { let mut au = good_self(&ups[i], x); au.tag = tag; tr.call(out, &C::Admin(10, ups[i].av.clone(), au)); }
+            Some(ad) => { tr.call(out, &C::Admin(10, Av::U32(*v), pt(ad, tag))); }
+        }
+        if *v > 0 { tr.call(out, &C::Schedule(kpr[i], *v - 1, P1, pt(P1, leak(format!("below-min-{}", name))))); }
+        if tr.call(out, &C::Schedule(kpr[i], *v, P1, pt(P1, leak(format!("at-min-{}", name))))) {
+            let ok = probe(&mut tr, out, kpr[i], x, leak(format!("min-{}@same-ledger", name)));
+            if !ok {
+                tr.call(out, &C::Advance(1));
+                probe(&mut tr, out, kpr[i], x, leak(format!("min-{}@next-ledger", name)));
+            }
+        }
+    }
+    tr.finish(out, desc);
+}
+
+/// Directed family: transfer_admin_role with live_until at 0 / 1 / ledger -1, +0, +1 / the host's maximum ttl -1, +0, +1 /
+/// 2^31 / u32::MAX - 1 / u32::MAX, by an external admin; acceptance at live_until and one ledger after it
+fn extreme_live_until(out: &mut Out, rng: &mut Rng, desc: &str, hc: usize) {
+    let now0 = 3000u32;
+    let mut tr = Tr::new_h(rng, now0, 1, &[P1], &[], Some(ADM), 1, true, hc);
+    let pt = |p: usize, t: &'static str| { let mut a = Authz::default(); a.plain.push(p); a.tag = t; a };
+    let mt = tr.w.max_ttl;
+    let lus: [(&'static str, u32); 12] = [("0", 0), ("1", 1), ("ledger-1", now0 - 1), ("ledger", now0), ("ledger+1", now0 + 1), ("max-ttl-1", now0 + mt - 2), ("max-ttl", now0 + mt - 1),
+        ("max-ttl+1", now0 + mt), ("max-ttl+2", now0 + mt + 1), ("half", H31), ("max-1", M32 - 1), ("max", M32)];
+    for (name, lu) in lus.iter() {
+        tr.call(out, &C::Admin(14, Av::Transfer(OUT, *lu), pt(ADM, leak(format!("live-until-{}", name)))));
+    }
+    tr.call(out, &C::Admin(14, Av::Transfer(OUT, 0), pt(ADM, "live-until-0-cancels")));
+    tr.call(out, &C::Admin(16, Av::Nil, pt(OUT, "offer-cancelled")));
+    tr.call(out, &C::Admin(14, Av::Transfer(OUT, now0 + 20), pt(ADM, "live-until-ledger+20")));
+    tr.call(out, &C::Advance(21));
+    tr.call(out, &C::Admin(16, Av::Nil, pt(OUT, "accept@live-until+1")));
+    tr.call(out, &C::Admin(14, Av::Transfer(OUT, now0 + 21 + 20), pt(ADM, "live-until-ledger+20")));
+    tr.call(out, &C::Advance(20));
+    tr.call(out, &C::Admin(16, Av::Nil, pt(OUT, "accept@live-until")));
+    tr.finish(out, desc);
+}
+
+/// Directed family: special 32-byte values as salt (0, 0xFF.., 0x80 0.., 0x7F FF.., 256, 1 << 248) and as predecessor
+/// (0xFF.., 0..01, 0x80 0.., the id of a Done / a Waiting / a cancelled operation), descriptor and operation agreeing or not
+fn special_bytes(out: &mut Out, rng: &mut Rng, desc: &str, nexec: usize, hc: usize) {
+    let execs: std::vec::Vec<usize> = [X1][..nexec].to_vec();
+    let mut tr = Tr::new_h(rng, 4000, 2, &[P1], &execs, None, 1, true, hc);
+    let x = if nexec == 0 { None } else { Some(X1) };
+    let z = [0u8; 32];
+    let pt = |p: usize, t: &'static str| { let mut a = Authz::default(); a.plain.push(p); a.tag = t; a };
+    let salts: [u8; 6] = [0, 255, 254, 253, 252, 251];
+    let sops: std::vec::Vec<OpD> = salts.iter().enumerate().map(|(i, s)| OpD { target: if i == 4 { TGT } else { SELF }, f: if i == 4 { 0 } else { 10 }, av: Av::U32(if i == 4 { 1 } else { 60 + i as u32 }), pred: z, salt: *s }).collect();
+    let ksal: std::vec::Vec<usize> = sops.iter().map(|o| tr.add_op(o.clone())).collect();
+    let base = OpD { target: SELF, f: 10, av: Av::U32(70), pred: z, salt: 1 };         // becomes Done
+    let wait = OpD { target: SELF, f: 10, av: Av::U32(71), pred: z, salt: 1 };         // stays Waiting
+    let canc = OpD { target: SELF, f: 10, av: Av::U32(72), pred: z, salt: 1 };         // cancelled
+    let kb = tr.add_op(base.clone()); let kw = tr.add_op(wait.clone()); let kc = tr.add_op(canc.clone());
+    let mut one = [0u8; 32]; one[31] = 1; let mut high = [0u8; 32]; high[0] = 0x80;
+    let preds: std::vec::Vec<(&'static str, [u8; 32])> = std::vec![("ff", [0xFFu8; 32]), ("one", one), ("high-bit", high),
+        ("done", tr.w.ids[tr.op_ids[kb]]), ("waiting", tr.w.ids[tr.op_ids[kw]]), ("cancelled", tr.w.ids[tr.op_ids[kc]])];
+    let pops: std::vec::Vec<OpD> = preds.iter().enumerate().map(|(i, p)| OpD { target: if i == 1 { TGT } else { SELF }, f: if i == 1 { 0 } else { 11 }, av: if i == 1 { Av::U32(2) } else { Av::Role(OUT, 4, SELF) }, pred: p.1, salt: 80 + i as u8 }).collect();
+    let kpre: std::vec::Vec<usize> = pops.iter().map(|o| tr.add_op(o.clone())).collect();
+    for (i, &k) in ksal.iter().enumerate() { tr.call(out, &C::Schedule(k, 2, P1, pt(P1, leak(format!("salt-{}", salt_name(salts[i])))))); }
+    for (i, &k) in kpre.iter().enumerate() { tr.call(out, &C::Schedule(k, 2, P1, pt(P1, leak(format!("pred-{}", preds[i].0))))); }
+    tr.call(out, &C::Schedule(kb, 2, P1, pt(P1, ""))); tr.call(out, &C::Schedule(kc, 2, P1, pt(P1, "")));
+    tr.call(out, &C::Schedule(kw, 50, P1, pt(P1, "")));
+    tr.call(out, &C::Cancel(tr.op_ids[kc], P1, pt(P1, "")));
+    tr.call(out, &C::Advance(1));
+    for (i, &k) in ksal.iter().enumerate() { probe(&mut tr, out, k, x, leak(format!("salt-{}@ready-1", salt_name(salts[i])))); }
+    tr.call(out, &C::Advance(1));
+    // descriptor naming ANOTHER special salt than the operation's: not that operation
+    for i in 0..sops.len() {
+        let o = &sops[i]; if o.target != SELF { continue; }
+        let other = salts[(i + 1) % salts.len()];
+        let mut au = good_self(o, x); au.selfe.as_mut().unwrap().metas[0].salt = other; au.tag = leak(format!("salt-{}-for-{}", salt_name(other), salt_name(o.salt)));
+        tr.call(out, &C::Admin(o.f, o.av.clone(), au));
+    }
+    for (i, &k) in ksal.iter().enumerate() {
+        let tag = leak(format!("salt-{}@ready+0", salt_name(salts[i])));
+        if i % 2 == 1 { probe_direct(&mut tr, out, k, x, tag); } else { probe(&mut tr, out, k, x, tag); }
+    }
+    for (i, &k) in kpre.iter().enumerate() { probe(&mut tr, out, k, x, leak(format!("pred-{}@before", preds[i].0))); }
+    probe(&mut tr, out, kb, x, "pred-base");
+    for (i, &k) in kpre.iter().enumerate() {
+        let tag = leak(format!("pred-{}@after", preds[i].0));
+        if i % 2 == 1 && tr.ops[k].target == SELF { probe_direct(&mut tr, out, k, x, tag); } else { probe(&mut tr, out, k, x, tag); }
+    }
+    // descriptor with the zero predecessor for an operation scheduled with a special one
+    for i in 0..pops.len() {
+        let o = &pops[i]; if o.target != SELF { continue; }
+        let mut au = good_self(o, x); au.selfe.as_mut().unwrap().metas[0].pred = z; au.tag = leak(format!("pred-zero-for-{}", preds[i].0));
+        tr.call(out, &C::Admin(o.f, o.av.clone(), au));
+    }
+    tr.finish(out, desc);
 }
 
 fn main() {
@@ -1138,6 +1364,17 @@ fn main() {
         let mut steps: std::vec::Vec<EStep> = std::vec![];
         for &pos in o.iter() { if cur.is_empty() { break; } let a = cur[pos % cur.len()]; steps.push(EStep::Revoke(2, a)); shadow_remove(&mut cur, &mut mv, a); }
         enum_scenario(&mut out, &mut rng, &format!("directed/enum-external-admin-{}", oi), 1400, &[P1], &m, Some(ADM), oi % 2, &steps);
+    }
+    // ---------- K2: numeric arguments at the u32 extremes; special 32-byte salts / predecessors ----------
+    for (i, (now0, nexec)) in [(1000u32, 1usize), (1000, 0), (CAP - 300, 1), (H31 - 5, 0), (2, 1)].iter().enumerate() {
+        if !thorough && i >= 3 && (i + out.cfg.seed as usize) % 2 == 0 { continue; }
+        extreme_delays(&mut out, &mut rng, &format!("directed/extreme-delays-ledger{}-exec{}", now0, nexec), *now0, *nexec, i % 2);
+    }
+    for nexec in 0..=1usize {
+        extreme_min_delay(&mut out, &mut rng, &format!("directed/extreme-min-delay-exec{}-self", nexec), nexec, nexec, None);
+        extreme_min_delay(&mut out, &mut rng, &format!("directed/extreme-min-delay-exec{}-external", nexec), nexec, 1 - nexec, Some(ADM));
+        special_bytes(&mut out, &mut rng, &format!("directed/special-bytes-exec{}", nexec), nexec, nexec);
+        extreme_live_until(&mut out, &mut rng, &format!("directed/extreme-live-until-host{}", nexec), nexec);
     }
     let nshape = 18u64;
     for nexec in 0..=1usize { for state in 0..=4u8 { for shape in 0..nshape {
